@@ -4,7 +4,7 @@
    [fixed c = true] is the repaired retry path (fixes/C19-D27.patch). *)
 From Coq Require Import ZArith List Bool.
 Import ListNotations.
-From SCMO Require Import Lib.Val Model.C19 Proofs.C19.
+From SCMO Require Import Lib.Val Model.C19 Proofs.C19 Proofs.C19_split.
 Open Scope Z_scope.
 
 (* MAIN.  For every write sequence, every maxHandles / pruneEvery (any integers) and every fault
@@ -108,3 +108,36 @@ Example C19_hopeless_example :
   fs (state_of r) 162 = Some [48; 59] /\ fs (state_of r) 109 = None.
 Proof. vm_compute. repeat split; try reflexivity. eexists; reflexivity. Qed.
 Print Assumptions C19_hopeless_example.
+
+(* ---- bamSplitByTag.py (does not use HandleLimiter: it bounds the open BAM writers by splitting in
+   several passes over the input).  For every read list, every max_handles >= 1 and any prior content:
+   the __main__ loop ends within |reads|+1 passes, every tag value is reported done, its file holds exactly
+   the reads carrying that value, in input order, and no other file is touched. *)
+Theorem C19_bamsplit : forall maxh reads init, 1 <= maxh ->
+  exists done f n, b_loop (S (length reads)) maxh reads [] init 0 = Some (done, f, n) /\
+    (forall v, In (Some v) (map fst reads) -> f v = Some (recs_of v reads) /\ In v done) /\
+    (forall v, ~ In (Some v) (map fst reads) -> f v = init v).
+Proof. exact bamsplit. Qed.
+Print Assumptions C19_bamsplit.
+
+(* never more than max_handles output files are open in a pass *)
+Theorem C19_bamsplit_handles : forall maxh skip reads f,
+  Z.of_nat (length (fst (fst (b_pass maxh skip reads f)))) <= Z.max 0 maxh.
+Proof. exact bamsplit_handles. Qed.
+Print Assumptions C19_bamsplit_handles.
+
+(* the hypothesis 1 <= max_handles is needed: with max_handles <= 0 and a tagged read the loop never ends *)
+Theorem C19_bamsplit_needs_a_handle : forall fuel maxh reads skip f passes v,
+  maxh <= 0 -> In (Some v) (map fst reads) -> ~ In v skip ->
+  b_loop fuel maxh reads skip f passes = None.
+Proof. exact bamsplit_zero_diverges. Qed.
+Print Assumptions C19_bamsplit_needs_a_handle.
+
+Example C19_bamsplit_example :
+  let reads := [(Some 7, 0); (Some 8, 1); (None, 2); (Some 7, 3); (Some 9, 4); (Some 8, 5)] in
+  match b_loop 7 2 reads [] (fun _ => None) 0 with
+  | Some (done, f, n) => done = [7; 8; 9] /\ n = 2%nat /\ f 7 = Some [0; 3] /\ f 8 = Some [1; 5] /\ f 9 = Some [4]
+  | None => False
+  end.
+Proof. vm_compute. repeat split; reflexivity. Qed.
+Print Assumptions C19_bamsplit_example.
